@@ -12,6 +12,7 @@ SequentialPlanValidator accepts are converted back by the real plan_back_convers
 """
 import itertools
 import json
+import time
 from collections import Counter
 from fractions import Fraction as F
 
@@ -287,6 +288,51 @@ def directed_bounds_spec(rng, idx, j):
             "family": "bounds-%s%s" % ("F" if lo_fl else "C", "F" if hi_fl else "C")}
 
 
+def directed_repeat_spec(rng, idx, j):
+    """The SAME ground durative action twice in one plan, its fluent-dependent duration bounds changed in between by
+    another action (`act1`, the writer).  j selects how the writer names the fluent it changes, relative to how the
+    duration names it: 0/2 the writer's parameter has another name (`lvl(y)` vs `lvl(x)`), 1/3 the writer changes the
+    ground fluent `lvl(o0)`, 4 the duration reads the ground `lvl(o0)` and the writer changes `lvl(y)`, 5 both write
+    `lvl(x)`.  The writer raises the fluent by at least the interval's width or lowers it by more, so that the duration
+    chosen for the first occurrence lies outside the interval of the second one (in `act0(o0); act1..; act0(o0)`).
+    The plans of these problems are enumerated up to length 3 (`maxlen`): the writer needs n1 >= 1 and consumes it,
+    act0 produces it (and, mostly, needs p(x), true for o0 only), which keeps the number of valid plans small."""
+    j = j % 6
+    a0_param = j != 4
+    leaf = ("f", "lvl", ("p",) if a0_param else ("o", 0))
+    lo = rng.choice([leaf, leaf, ("+", leaf, ("c", rng.choice([F(1), F(1, 2)]))), ("*", ("c", rng.choice([F(2), F(3, 2)])), leaf)])
+    act0 = {"name": "act0", "kind": "dur", "param": a0_param, "conds": [], "lo": lo,
+            "effs": [("end", ("inc", "n1", None, F(1)))]}
+    if rng.random() < 0.4:
+        act0["hi"], act0["lopen"], act0["ropen"] = lo, False, False
+    else:
+        act0["hi"] = ("+", lo, ("c", rng.choice([F(1), F(2)])))
+        act0["lopen"], act0["ropen"] = rng.choice([(False, False), (True, False), (False, True), (True, True)])
+    if a0_param and rng.random() < 0.7:
+        act0["conds"].append((rng.choice(["start", "cc", "co"]), ("b", "p", ("p",), True)))
+    if rng.random() < 0.4:
+        act0["effs"].append((rng.choice(["start", "end"]), ("setb", "b0", None, True)))
+    w_param = j in (0, 2, 4, 5)
+    w_arg = ("p",) if w_param else ("o", 0)
+    w_eff = ("inc", "lvl", w_arg, rng.choice([F(2), F(3)])) if rng.random() < 0.6 else ("setn", "lvl", w_arg, rng.choice([F(1), F(3, 2)]))
+    act1 = {"name": "act1", "kind": "dur" if j in (0, 3, 4) or (j == 5 and rng.random() < 0.5) else "inst", "param": w_param,
+            "pname": "x" if j == 5 else "y", "conds": [("start", ("ge", "n1", None, F(1)))]}
+    if act1["kind"] == "dur":
+        act1["effs"] = [("start", ("dec", "n1", None, F(1))), (rng.choice(["start", "end", "end"]), w_eff)]
+        act1["lo"], act1["hi"] = ("c", F(1)), ("c", rng.choice([F(1), F(2)]))
+        act1["lopen"], act1["ropen"] = False, False
+    else:
+        act1["effs"] = [("start", ("dec", "n1", None, F(1))), ("start", w_eff)]
+    init = {"b0": False, "b1": False, "p": [True, False], "n0": F(1), "n1": F(0), "n2": F(0),
+            "lvl": [rng.choice([F(4), F(5)]), F(2)]}
+    goal = rng.choice([None, None, ("ge", "n1", None, F(1)), ("b", "b0", None, True)]) if len(act0["effs"]) > 1 else \
+        rng.choice([None, ("ge", "n1", None, F(1))])
+    return {"idx": idx, "acts": [act0, act1], "init": init, "goal": goal, "epsilon": rng.choice([None, F(1, 10)]),
+            "prune": rng.random() < 0.7, "maxlen": 3,
+            "family": "repeat-after-write-%s" % ["other-param-name", "ground-fluent", "other-param-name", "ground-fluent",
+                                                 "ground-duration", "same-param-name"][j]}
+
+
 def step_state(spec, st, ai, param):
     act = spec["acts"][ai]
     st = apply_effs(st, [e for (w, e) in act["effs"] if w == "start"], param)
@@ -357,7 +403,7 @@ def build(spec):
 
     up_acts = []
     for act in spec["acts"]:
-        pd = {"x": T} if act["param"] else {}
+        pd = {act.get("pname", "x"): T} if act["param"] else {}
         if act["kind"] == "inst":
             a = InstantaneousAction(act["name"], **pd)
             for (_, c) in act["conds"]:
@@ -503,7 +549,10 @@ def run(ctx):
     maxlen = 2 if ctx.quick else 3
     n_directed = 12 if ctx.quick else 50      # problems of the family start-delta-read-at-end (see directed_startdelta_spec)
     n_bounds = 16 if ctx.quick else 48        # (lower, upper) in {const, fluent}^2 x 4 openness combinations (directed_bounds_spec)
+    n_repeat = 6 if ctx.quick else 18         # same ground action twice, bounds changed in between (directed_repeat_spec)
+    n_problems += n_repeat
     stats = Counter()
+    secs = Counter()
     stats["epsilon_zero_setter"] = epsilon_zero_probe(ctx)
     cases, raw, preamble = [], [], []
     nontrivial = set()
@@ -518,8 +567,11 @@ def run(ctx):
             spec = directed_startdelta_spec(rng, pi)
         elif pi <= n_directed + n_bounds:
             spec = directed_bounds_spec(rng, pi, (pi - n_directed - 1) % 16)
+        elif pi <= n_directed + n_bounds + n_repeat:
+            spec = directed_repeat_spec(rng, pi, pi - n_directed - n_bounds - 1)
         else:
             spec = rand_spec(rng, pi)
+        t_spec = time.time()
         try:
             built = build(spec)
         except Exception as e:       # a generated problem the API or the compiler refuses: not an input of the property
@@ -538,7 +590,7 @@ def run(ctx):
         sim = UPSequentialSimulator(cp)
         found = 0
         this_cases = []
-        for n in range(0, maxlen + 1):
+        for n in range(0, max(maxlen, spec.get("maxlen", 0)) + 1):
             for seq in itertools.product(ground, repeat=n):
                 stats["compiled_plans_enumerated"] += 1
                 sp = SequentialPlan([cp.action(spec["acts"][ai]["name"])(*([] if param is None else [objs[param]]))
@@ -599,6 +651,15 @@ def run(ctx):
                         stats["steps_instantaneous"] += 1
                 stats["valid_compiled_plans_len_%d" % n] += 1
                 st0 = init_state(spec)
+                earlier = {}
+                for (ai_, param_, st_) in steps:
+                    a_ = spec["acts"][ai_]
+                    if a_["kind"] == "dur":
+                        b_ = (eval_bound(a_["lo"], st_, param_), eval_bound(a_["hi"], st_, param_))
+                        if (ai_, param_) in earlier:
+                            stats["steps_repeating_a_ground_action"] += 1
+                            stats["steps_repeating_a_ground_action_with_other_bounds"] += earlier[(ai_, param_)] != b_
+                        earlier[(ai_, param_)] = b_
                 for (ai_, param_, st_) in steps:
                     a_ = spec["acts"][ai_]
                     if a_["kind"] == "dur" and (eval_bound(a_["lo"], st_, param_), eval_bound(a_["hi"], st_, param_)) != \
@@ -621,6 +682,7 @@ def run(ctx):
                 this_cases.append((g_case(spec, eps, steps, obs), m, spec, eps, steps, obs, tags))
         stats["problems"] += 1
         stats["problems_family_" + spec.get("family", "alias" if pi == 0 else "random")] += 1
+        secs["repeat-after-write" if spec.get("family", "").startswith("repeat") else "other families"] += time.time() - t_spec
         for act in spec["acts"]:
             sfl = set((e[1], e[2]) for (w, e) in act["effs"] if w == "start" and e[0] in ("inc", "dec"))
             rd = set((c[1], c[2]) for (w, c) in act["conds"] if w != "start")
@@ -670,7 +732,7 @@ def run(ctx):
                 "distinct_nontrivial = distinct (problem, plan) whose plan contains a durative action with an open end or a "
                 "fluent-dependent bound" % maxlen,
         "samples": [raw[i][0] for i in range(min(2, len(raw)))],
-        "distribution": dict(stats),
+        "distribution": dict(stats, **{"python_seconds_" + k: round(v, 1) for k, v in secs.items()}),
         "plans_judged_by_tt_validator": len(cases),
         "level_detail": "proof: duration/spacing lemmas; validated: whole-plan acceptance by TimeTriggeredPlanValidator",
     }, "proof", assumptions=[
